@@ -13,5 +13,8 @@ pub mod c09;
 pub mod c10;
 pub mod c11;
 pub mod c15;
+pub mod c16;
+pub mod c17;
+pub mod c18;
 
-pub static ALL: &[&Prop] = &[&c01::PROP, &c02::PROP, &c03::PROP, &c04::PROP, &c06::PROP, &c07::PROP, &c08::PROP, &c09::PROP, &c10::PROP, &c11::PROP, &c15::PROP];
+pub static ALL: &[&Prop] = &[&c01::PROP, &c02::PROP, &c03::PROP, &c04::PROP, &c06::PROP, &c07::PROP, &c08::PROP, &c09::PROP, &c10::PROP, &c11::PROP, &c15::PROP, &c16::PROP, &c17::PROP, &c18::PROP];
